@@ -1,7 +1,7 @@
 (* Proofs for C15 (request URL construction).  Model: Http/UrlModel.v (net/url, modelled), Http/Url.v (formatQueryUrl). *)
-From Coq Require Import List Bool Arith NArith Lia.
+From Coq Require Import List Bool Arith NArith ZArith Lia.
 From Coq.Strings Require Import Byte.
-From GR Require Import Base.Bytes Gen.TablesUrl Http.UrlModel Http.Url Http.UrlEnc.
+From GR Require Import Base.Bytes Gen.TablesUrl Gen.TablesTunnel Http.UrlModel Http.Url Http.UrlEnc.
 Import ListNotations.
 
 (* ------------------------------------------------------------------------------------------------ per-byte facts *)
@@ -1181,3 +1181,69 @@ Proof.
   - unfold root_ok in Hr. destruct root; discriminate.
   - exact (segs_ok_plain _ Hs).
 Qed.
+
+(* ------------------------------------------------------------------------------------------------ tunnelled requests *)
+
+(* the threshold test of either module generation (transcribed from the current source) only fires for a positive
+   threshold and a longer - hence non-empty - query *)
+Lemma tunnel_test_positive v2 th n : tunnel_test v2 th n = true -> (0 < th /\ th < n)%Z.
+Proof.
+  unfold tunnel_test, tunnel_condition, tunnel_condition_root. destruct v2; rewrite andb_true_iff, !Z.gtb_lt; tauto.
+Qed.
+
+(* u.RawQuery = "" on the joined URL of a tunnelled request gives the joined URL of the same request without query *)
+Lemma tunnel_url_joined v2 th scheme host ctx dpath rpath q :
+  tunnel_url v2 th (joined_url scheme host ctx dpath rpath q) =
+  joined_url scheme host ctx dpath rpath (if tunnels v2 th q then None else q).
+Proof.
+  unfold tunnel_url, tunnels. cbn [joined_url u_rawquery].
+  destruct (tunnel_test v2 th (Z.of_nat (length (raw_query_of q)))) eqn:E; [|reflexivity].
+  apply tunnel_test_positive in E. destruct q as [[|c s]|].
+  - simpl in E. lia.
+  - reflexivity.
+  - simpl in E. lia.
+Qed.
+
+Lemma request_url_t_grammar v2 th scheme host segs tr root rpath q :
+  in_grammar scheme host segs root = true -> valid_path root rpath = true -> valid_query q = true ->
+  new_request_url_t v2 th (mk_base scheme host (render_ctx segs tr)) root rpath q =
+  new_request_url (mk_base scheme host (render_ctx segs tr)) root rpath (if tunnels v2 th q then None else q).
+Proof.
+  intros HG HP HQ.
+  destruct (format_query_url_grammar scheme host segs tr root rpath q HG HP HQ) as (dctx & d & Hdc & Hd & HF).
+  assert (HQ' : valid_query (if tunnels v2 th q then None else q) = true) by (destruct (tunnels v2 th q); [reflexivity|exact HQ]).
+  destruct (format_query_url_grammar scheme host segs tr root rpath _ HG HP HQ') as (dctx' & d' & Hdc' & Hd' & HF').
+  rewrite Hdc in Hdc'. injection Hdc' as <-. rewrite Hd in Hd'. injection Hd' as <-.
+  unfold new_request_url_t, new_request_url. rewrite HF, HF', tunnel_url_joined. reflexivity.
+Qed.
+
+Lemma tunnelled_url_preserves_base_and_path v2 th ptab qtab scheme host segs trailing root rpath q :
+  In (ptab, qtab) module_tables ->
+  in_grammar scheme host segs root = true -> encoded_path ptab root rpath = true -> encoded_query qtab q = true ->
+  exists u,
+    new_request_url_t v2 th (mk_base scheme host (render_ctx segs trailing)) root rpath q = UOk u /\
+    u_scheme u = scheme /\ u_host u = host /\
+    escaped_path u = context (render_ctx segs trailing) root ++ rpath /\
+    u_rawquery u = (if tunnels v2 th q then [] else raw_query_of q) /\
+    u_forcequery u = (if tunnels v2 th q then false else force_query_of q) /\
+    url_string u = UOk (authority_prefix scheme host ++ (context (render_ctx segs trailing) root ++ rpath)
+                        ++ (if tunnels v2 th q then [] else query_suffix q)).
+Proof.
+  intros HT HG HP HQ. destruct (module_tables_ok _ _ HT) as [T1 T2].
+  pose proof (encoded_path_valid _ _ _ T1 HP) as HP'. pose proof (encoded_query_valid _ _ T2 HQ) as HQ'.
+  rewrite (request_url_t_grammar v2 th scheme host segs trailing root rpath q HG HP' HQ').
+  assert (HQ2 : valid_query (if tunnels v2 th q then None else q) = true) by (destruct (tunnels v2 th q); [reflexivity|exact HQ']).
+  destruct (request_url_grammar scheme host segs trailing root rpath _ HG HP' HQ2) as (u & H1 & H2 & H3 & H4 & H5 & H6 & _ & H8).
+  exists u. destruct (tunnels v2 th q); repeat split; assumption.
+Qed.
+
+(* a client keeps nothing between requests: the URL of the request made after any history is the URL of that request alone *)
+Lemma url_of_request_history_independent v2 th before r after :
+  nth_error (client_urls v2 th (before ++ r :: after)) (length before) = Some (request_url v2 th r).
+Proof.
+  unfold client_urls. rewrite map_app, nth_error_app2; rewrite map_length; [|lia]. rewrite Nat.sub_diag. reflexivity.
+Qed.
+
+Lemma history_urls_pointwise v2 th history i r :
+  nth_error history i = Some r -> nth_error (client_urls v2 th history) i = Some (request_url v2 th r).
+Proof. intros H. unfold client_urls. apply map_nth_error. exact H. Qed.
